@@ -191,6 +191,11 @@ def run(chk: Check):
         chk.add_tlc(r, "M1-intended-atomic-print")
         if r.violated or missing:
             raise tlc.TLCFailure("MC_ConsoleConc (atomic print) violated=%s missing=%s" % (r.violated, missing))
+        for extra in ("MC_ConsoleConc_3", "MC_ConsoleConc_refresh_only"):
+            rx, _, _ = tlc.model_check("MC_ConsoleConc", cfg=extra)
+            chk.add_tlc(rx, "M1-" + extra[15:])
+            if rx.violated:
+                raise tlc.TLCFailure("%s violated %s" % (extra, rx.violated))
         rf, _, _ = tlc.model_check("MC_ConsoleConc", cfg="MC_ConsoleConc_faithful")
         chk.add_tlc(rf, "M1-faithful")
         chk.notes["faithful_model_violates"] = rf.violated
